@@ -642,7 +642,9 @@ impl Ctx {
                         MapH::U64(m) => int_bulk!(m, ints),
                         MapH::Vu64(m) => int_bulk!(m, ints),
                         MapH::I64(m) => int_bulk!(m, sints),
-                        _ => return Err("via=int needs a typed map".into()),
+                        // string / bytes maps addressed by integers (the key is the integer's 8 big-endian bytes)
+                        MapH::Str(m) => int_bulk!(m, ints),
+                        MapH::Bytes(m) => int_bulk!(m, ints),
                     };
                     self.set_res(ev, r, |v| v);
                     return Ok(());
